@@ -180,6 +180,11 @@ class RoundTrip(Scenario):
         m, res, names_p, _ = self._rt
         if res[0] == "write":
             ctx.note(f"export raised {type(res[1]).__name__}")
+            # a refusal is a deliberate statement about the construct; an exception of the kinds below comes out of the exporter's own
+            # machinery (a wrong attribute, a missing key) and says nothing about the model - for the constructs the property names
+            # (initial assignments, fractional and computed coefficients, conditionals, derived quantities) that is a failed export
+            crashed = isinstance(res[1], AttributeError | TypeError | KeyError | IndexError | NameError | UnboundLocalError)
+            ctx.true(f"the export refuses deliberately, it does not crash ({type(res[1]).__name__}: {res[1]})"[:170], not crashed)
             ctx.true("export refused (raised)", True)
             return
         if res[0] == "read":
